@@ -1,2 +1,631 @@
-(** proofs about the Svs model (C09) *)
+(** Proofs about the value-stream model (C09): the sink cuts every write
+    segmentation of a byte stream into [chunks_of]; the lookahead session
+    delivers every chunk once, in order, marks exactly the final one, and turns
+    a producer failure into an error; reassembly returns the stream. *)
 From RepeV Require Import Model.Svs.
+From Coq Require Import ZifyBool ZifyN ZifyNat.
+Ltac Zify.zify_post_hook ::= Z.div_mod_to_equations.
+
+Local Open Scope nat_scope.
+
+(** * generic list facts *)
+Lemma firstn_app_exact {A} (a l : list A) : firstn (length a) (a ++ l) = a.
+Proof. induction a as [|x a IH]; cbn [length firstn app]; [now destruct l|now rewrite IH]. Qed.
+
+Lemma skipn_app_exact {A} (a l : list A) : skipn (length a) (a ++ l) = l.
+Proof. induction a as [|x a IH]; cbn [length skipn app]; [reflexivity|exact IH]. Qed.
+
+Lemma bytes_eqb_refl l : bytes_eqb l l = true.
+Proof. induction l as [|x l IH]; cbn [bytes_eqb]; [reflexivity|]. rewrite IH, N.eqb_refl. reflexivity. Qed.
+
+Lemma bytes_eqb_eq a b : bytes_eqb a b = true -> a = b.
+Proof.
+  revert b; induction a as [|x a IH]; intros [|y b] H; cbn [bytes_eqb] in H; try discriminate; [reflexivity|].
+  apply andb_true_iff in H. destruct H as [H1 H2]. apply N.eqb_eq in H1. f_equal; [exact H1|exact (IH _ H2)].
+Qed.
+
+Lemma starts_with_app p l : starts_with p (p ++ l) = true.
+Proof. induction p as [|x p IH]; cbn [starts_with app]; [reflexivity|]. rewrite IH, N.eqb_refl. reflexivity. Qed.
+
+Lemma starts_with_prefix p l : starts_with p l = true -> exists r, l = p ++ r.
+Proof.
+  revert l; induction p as [|x p IH]; intros l H; [exists l; reflexivity|].
+  destruct l as [|y l]; cbn [starts_with] in H; [discriminate|].
+  apply andb_true_iff in H. destruct H as [H1 H2]. apply N.eqb_eq in H1. subst y.
+  destruct (IH _ H2) as [r ->]. exists r. reflexivity.
+Qed.
+
+(** * chunks_of *)
+
+(** the shape "every chunk has exactly [n] bytes, except a non-empty last one
+    of at most [n]" *)
+Fixpoint chunking (n : nat) (cs : list chunk) : Prop :=
+  match cs with
+  | [] => True
+  | c :: cs' => match cs' with
+                | [] => 0 < length c <= n
+                | _ :: _ => length c = n /\ chunking n cs'
+                end
+  end.
+
+Lemma chunks_of_fuel_enough n : 0 < n -> forall f1 f2 l, length l <= f1 -> length l <= f2 ->
+  chunks_of_fuel f1 n l = chunks_of_fuel f2 n l.
+Proof.
+  intros Hn f1; induction f1 as [|f1 IH]; intros f2 l H1 H2.
+  - destruct l; [|cbn [length] in H1; lia]. destruct f2; reflexivity.
+  - destruct f2 as [|f2]; [destruct l; [reflexivity|cbn [length] in H2; lia]|].
+    destruct l as [|x l]; [reflexivity|]. cbn [chunks_of_fuel]. f_equal.
+    apply IH; rewrite skipn_length; cbn [length] in *; lia.
+Qed.
+
+Lemma chunks_of_nil n : chunks_of n [] = [].
+Proof. reflexivity. Qed.
+
+Lemma chunks_of_step n x l : 0 < n ->
+  chunks_of n (x :: l) = firstn n (x :: l) :: chunks_of n (skipn n (x :: l)).
+Proof.
+  intros Hn. unfold chunks_of at 1. cbn [length chunks_of_fuel]. f_equal.
+  apply chunks_of_fuel_enough; [exact Hn| |lia].
+  rewrite skipn_length. cbn [length]. lia.
+Qed.
+
+Lemma chunks_of_full n a l : 0 < n -> length a = n -> chunks_of n (a ++ l) = a :: chunks_of n l.
+Proof.
+  intros Hn Ha. destruct a as [|x a]; [cbn [length] in Ha; lia|].
+  change ((x :: a) ++ l) with (x :: (a ++ l)). rewrite chunks_of_step by exact Hn.
+  change (x :: (a ++ l)) with ((x :: a) ++ l). rewrite <- Ha.
+  rewrite firstn_app_exact, skipn_app_exact. reflexivity.
+Qed.
+
+Lemma chunks_of_short n l : 0 < length l <= n -> chunks_of n l = [l].
+Proof.
+  intros H. destruct l as [|x l]; [cbn [length] in H; lia|].
+  rewrite chunks_of_step by lia. rewrite firstn_all2, skipn_all2 by lia. reflexivity.
+Qed.
+
+Lemma chunks_of_concat n : 0 < n -> forall k l, length l <= k -> concat (chunks_of n l) = l.
+Proof.
+  intros Hn k; induction k as [|k IH]; intros l Hl.
+  - destruct l; [reflexivity|cbn [length] in Hl; lia].
+  - destruct l as [|x l]; [reflexivity|]. rewrite chunks_of_step by exact Hn. cbn [concat].
+    rewrite IH; [apply firstn_skipn|]. rewrite skipn_length. cbn [length] in *. lia.
+Qed.
+
+Lemma chunks_of_chunking n : 0 < n -> forall k l, length l <= k -> chunking n (chunks_of n l).
+Proof.
+  intros Hn k; induction k as [|k IH]; intros l Hl.
+  - destruct l; [exact I|cbn [length] in Hl; lia].
+  - destruct l as [|x l]; [exact I|]. rewrite chunks_of_step by exact Hn.
+    assert (Hs : length (skipn n (x :: l)) <= k) by (rewrite skipn_length; cbn [length] in *; lia).
+    specialize (IH _ Hs).
+    destruct (skipn n (x :: l)) as [|y r] eqn:E.
+    + rewrite chunks_of_nil. cbn [chunking]. rewrite firstn_length. cbn [length]. lia.
+    + assert (Hlen : n < length (x :: l)).
+      { assert (H0 : length (skipn n (x :: l)) = length (y :: r)) by now rewrite E.
+        rewrite skipn_length in H0. cbn [length] in *. lia. }
+      rewrite chunks_of_step in * by exact Hn. cbn [chunking]. split; [|exact IH].
+      rewrite firstn_length. lia.
+Qed.
+
+(** the shape determines the chunks: [chunks_of] is the only such cutting *)
+Lemma chunking_unique n : 0 < n -> forall cs, chunking n cs -> cs = chunks_of n (concat cs).
+Proof.
+  intros Hn cs; induction cs as [|c cs IH]; intros H; [reflexivity|].
+  cbn [chunking] in H. destruct cs as [|c2 cs].
+  - cbn [concat]. rewrite app_nil_r. symmetry. apply chunks_of_short. exact H.
+  - destruct H as [Hc H]. cbn [concat]. rewrite chunks_of_full by assumption. f_equal. exact (IH H).
+Qed.
+
+(** * the sink *)
+Definition tailc (r : list byte) : list chunk := match r with [] => [] | _ :: _ => [r] end.
+
+Lemma sink_bytes_spec n : 0 < n -> forall data buf, length buf < n ->
+  length (snd (sink_bytes n buf data)) < n /\
+  chunks_of n (buf ++ data) = fst (sink_bytes n buf data) ++ tailc (snd (sink_bytes n buf data)).
+Proof.
+  intros Hn data; induction data as [|b data IH]; intros buf Hb.
+  - cbn [sink_bytes fst snd]. rewrite app_nil_r. split; [exact Hb|].
+    destruct buf as [|x buf]; [reflexivity|]. cbn [tailc app]. apply chunks_of_short. cbn [length] in *. lia.
+  - cbn [sink_bytes].
+    assert (Hl : length (buf ++ [b]) = S (length buf)) by (rewrite app_length; cbn [length]; lia).
+    replace (buf ++ b :: data) with ((buf ++ [b]) ++ data) by (rewrite <- app_assoc; reflexivity).
+    destruct (n <=? length (buf ++ [b])) eqn:E.
+    + apply Nat.leb_le in E.
+      specialize (IH [] Hn). cbn [app] in IH.
+      destruct (sink_bytes n [] data) as [cs r]. cbn [fst snd] in *.
+      split; [exact (proj1 IH)|]. rewrite chunks_of_full by lia. rewrite (proj2 IH). reflexivity.
+    + apply Nat.leb_gt in E. apply IH. exact E.
+Qed.
+
+Lemma sink_bytes_app n a : forall b buf,
+  sink_bytes n buf (a ++ b) =
+  (fst (sink_bytes n buf a) ++ fst (sink_bytes n (snd (sink_bytes n buf a)) b),
+   snd (sink_bytes n (snd (sink_bytes n buf a)) b)).
+Proof.
+  induction a as [|x a IH]; intros b buf.
+  - cbn [app sink_bytes fst snd]. now destruct (sink_bytes n buf b).
+  - cbn [app sink_bytes]. destruct (n <=? length (buf ++ [x])).
+    + rewrite IH. destruct (sink_bytes n [] a) as [cs r]. cbn [fst snd]. reflexivity.
+    + apply IH.
+Qed.
+
+Lemma sink_bytes_writes_concat n ws : forall buf,
+  sink_bytes_writes n buf ws = sink_bytes n buf (concat ws).
+Proof.
+  induction ws as [|w ws IH]; intros buf; [reflexivity|].
+  cbn [sink_bytes_writes concat]. rewrite sink_bytes_app.
+  destruct (sink_bytes n buf w) as [cs b]. cbn [fst snd]. rewrite IH.
+  now destruct (sink_bytes n b (concat ws)).
+Qed.
+
+(** a write that does not fill the buffer only appends *)
+Lemma sink_bytes_fill n x : forall buf, length buf + length x < n -> sink_bytes n buf x = ([], buf ++ x).
+Proof.
+  induction x as [|b x IH]; intros buf H; cbn [sink_bytes]; [now rewrite app_nil_r|].
+  assert (Hl : length (buf ++ [b]) = S (length buf)) by (rewrite app_length; cbn [length]; lia).
+  cbn [length] in H.
+  destruct (n <=? length (buf ++ [b])) eqn:E; [apply Nat.leb_le in E; lia|].
+  rewrite IH by lia. rewrite <- app_assoc. reflexivity.
+Qed.
+
+(** a write that fills the buffer exactly sends it *)
+Lemma sink_bytes_fill_exact n x : forall buf, x <> [] -> length buf + length x = n ->
+  sink_bytes n buf x = ([buf ++ x], []).
+Proof.
+  induction x as [|b x IH]; intros buf Hx H; [congruence|]. cbn [sink_bytes].
+  assert (Hl : length (buf ++ [b]) = S (length buf)) by (rewrite app_length; cbn [length]; lia).
+  cbn [length] in H.
+  destruct x as [|b2 x].
+  - cbn [length] in H. destruct (n <=? length (buf ++ [b])) eqn:E; [reflexivity|apply Nat.leb_gt in E; lia].
+  - destruct (n <=? length (buf ++ [b])) eqn:E; [apply Nat.leb_le in E; cbn [length] in H; lia|].
+    rewrite IH; [|discriminate|cbn [length] in *; lia]. rewrite <- app_assoc. reflexivity.
+Qed.
+
+(** the bulk loop of [ChunkSink::write] is the byte-at-a-time sink *)
+Lemma sink_write_bytes n : 0 < n -> forall fuel data buf, length buf < n -> length data < fuel ->
+  sink_write fuel n buf data = sink_bytes n buf data.
+Proof.
+  intros Hn fuel; induction fuel as [|f IH]; intros data buf Hb Hf; [lia|].
+  destruct data as [|d ds]; [reflexivity|].
+  cbn [sink_write].
+  set (data := d :: ds) in *.
+  set (take := Nat.min (n - length buf) (length data)).
+  assert (Ht : 0 < take) by (subst take data; cbn [length]; lia).
+  replace (sink_bytes n buf data) with (sink_bytes n buf (firstn take data ++ skipn take data))
+    by (now rewrite firstn_skipn).
+  rewrite sink_bytes_app.
+  assert (Hfl : length (firstn take data) = take) by (rewrite firstn_length; subst take; lia).
+  assert (Hbl : length (buf ++ firstn take data) = length buf + take) by (rewrite app_length; lia).
+  destruct (n <=? length (buf ++ firstn take data)) eqn:E.
+  - apply Nat.leb_le in E.
+    rewrite sink_bytes_fill_exact; [| |lia].
+    + cbn [fst snd]. rewrite IH; [|exact Hn|rewrite skipn_length; lia].
+      destruct (sink_bytes n [] (skipn take data)) as [cs r]. reflexivity.
+    + intros Hnil. rewrite Hnil in Hfl. cbn [length] in Hfl. lia.
+  - apply Nat.leb_gt in E.
+    assert (Hall : take = length data) by lia.
+    rewrite sink_bytes_fill by lia. cbn [fst snd].
+    rewrite skipn_all2 by lia. cbn [sink_bytes app].
+    destruct f; reflexivity.
+Qed.
+
+Lemma sink_writes_bytes n : 0 < n -> forall ws buf, length buf < n ->
+  sink_writes n buf ws = sink_bytes n buf (concat ws).
+Proof.
+  intros Hn ws; induction ws as [|w ws IH]; intros buf Hb; [reflexivity|].
+  cbn [sink_writes concat]. rewrite sink_write_bytes by (try assumption; lia).
+  rewrite sink_bytes_app.
+  pose proof (sink_bytes_spec n Hn w buf Hb) as [Hr _].
+  destruct (sink_bytes n buf w) as [cs b]. cbn [fst snd] in *. rewrite IH by exact Hr.
+  now destruct (sink_bytes n b (concat ws)).
+Qed.
+
+(** both sink models, every segmentation: full chunks followed by the flushed tail *)
+Theorem sink_writes_chunks n ws : 0 < n ->
+  fst (sink_writes n [] ws) ++ tailc (snd (sink_writes n [] ws)) = chunks_of n (concat ws) /\
+  length (snd (sink_writes n [] ws)) < n.
+Proof.
+  intros Hn. rewrite sink_writes_bytes by (cbn [length]; lia).
+  pose proof (sink_bytes_spec n Hn (concat ws) [] Hn) as [H1 H2]. cbn [app] in H2. split; [now rewrite H2|exact H1].
+Qed.
+
+Theorem sink_bytes_writes_chunks n ws : 0 < n ->
+  fst (sink_bytes_writes n [] ws) ++ tailc (snd (sink_bytes_writes n [] ws)) = chunks_of n (concat ws).
+Proof.
+  intros Hn. rewrite sink_bytes_writes_concat.
+  pose proof (sink_bytes_spec n Hn (concat ws) [] Hn) as [_ H2]. cbn [app] in H2. now rewrite H2.
+Qed.
+
+(** the full chunks alone are a prefix of the stream *)
+Lemma sink_full_chunks_prefix n ws : 0 < n ->
+  concat ws = concat (fst (sink_writes n [] ws)) ++ snd (sink_writes n [] ws).
+Proof.
+  intros Hn. pose proof (sink_writes_chunks n ws Hn) as [H _].
+  rewrite <- (chunks_of_concat n Hn (length (concat ws)) (concat ws) (le_n _)), <- H, concat_app.
+  f_equal. destruct (snd (sink_writes n [] ws)); cbn [tailc concat]; [reflexivity|now rewrite app_nil_r].
+Qed.
+
+(** * produce *)
+Lemma produce_ok n ws : 0 < n -> produce n ws false = map MChunk (chunks_of n (concat ws)) ++ [MEnd].
+Proof.
+  intros Hn. pose proof (sink_writes_chunks n ws Hn) as [H _]. rewrite <- H. unfold produce.
+  destruct (sink_writes n [] ws) as [cs tail]. cbn [fst snd].
+  destruct tail; cbn [tailc]; rewrite map_app, <- app_assoc; reflexivity.
+Qed.
+
+Lemma produce_fail n ws : produce n ws true = map MChunk (fst (sink_writes n [] ws)) ++ [MFail].
+Proof. unfold produce. destruct (sink_writes n [] ws) as [cs tail]. reflexivity. Qed.
+
+(** * the session behind [next]: what a consumer sees for a list of chunks *)
+
+(** clean end after the chunks [cs] *)
+Fixpoint pulls_ok (cs : list chunk) : list resp :=
+  match cs with
+  | [] => [RChunk [] true]
+  | c :: cs' => match cs' with
+                | [] => [RChunk c true]
+                | _ :: _ => RChunk c false :: pulls_ok cs'
+                end
+  end.
+
+(** failure (or a channel closed without a terminal message) after the chunks [cs] *)
+Fixpoint pulls_fail (cs : list chunk) : list resp :=
+  match cs with
+  | [] => [RErr EC_INTERNAL]
+  | c :: cs' => match cs' with
+                | [] => [RErr EC_INTERNAL]
+                | _ :: _ => RChunk c false :: pulls_fail cs'
+                end
+  end.
+
+Definition st (rx : list msg) (look : option chunk) : table := Some (mkSession rx look false).
+
+Lemma next_first_chunk c rx : next_handler (st (MChunk c :: rx) None) = next_handler (st rx (Some c)).
+Proof. reflexivity. Qed.
+
+(** the terminal message that follows the chunks *)
+Inductive term_ok : list msg -> Prop := term_end rest : term_ok (MEnd :: rest).
+Inductive term_fail : list msg -> Prop :=
+| term_f rest : term_fail (MFail :: rest)
+| term_closed : term_fail [].
+
+Lemma raw_pulls_ok_look tl : term_ok tl -> forall cs c fuel, length cs < fuel ->
+  raw_pulls fuel (st (map MChunk cs ++ tl) (Some c)) = (pulls_ok (c :: cs), None).
+Proof.
+  intros [rest] cs; induction cs as [|c2 cs IH]; intros c fuel Hf; (destruct fuel as [|f]; [cbn [length] in Hf; lia|]).
+  - reflexivity.
+  - cbn [raw_pulls map app]. unfold st at 1. cbn [next_handler s_done session_pull s_look s_rx pull_second recv].
+    fold (st (map MChunk cs ++ MEnd :: rest) (Some c2)).
+    rewrite IH by (cbn [length] in Hf; lia). reflexivity.
+Qed.
+
+Lemma raw_pulls_ok tl : term_ok tl -> forall cs fuel, length cs < fuel ->
+  raw_pulls fuel (st (map MChunk cs ++ tl) None) = (pulls_ok cs, None).
+Proof.
+  intros Ht cs fuel Hf. destruct cs as [|c cs].
+  - destruct Ht as [rest]. destruct fuel; [lia|]. reflexivity.
+  - destruct fuel as [|f]; [lia|]. cbn [map app]. cbn [raw_pulls]. rewrite next_first_chunk.
+    pose proof (raw_pulls_ok_look tl Ht cs c (S f)) as H. cbn [raw_pulls] in H. apply H. cbn [length] in Hf. lia.
+Qed.
+
+Lemma raw_pulls_fail_look tl : term_fail tl -> forall cs c fuel, length cs < fuel ->
+  raw_pulls fuel (st (map MChunk cs ++ tl) (Some c)) = (pulls_fail (c :: cs), None).
+Proof.
+  intros Ht cs; induction cs as [|c2 cs IH]; intros c fuel Hf; (destruct fuel as [|f]; [cbn [length] in Hf; lia|]).
+  - destruct Ht; reflexivity.
+  - cbn [raw_pulls map app]. unfold st at 1. cbn [next_handler s_done session_pull s_look s_rx pull_second recv].
+    fold (st (map MChunk cs ++ tl) (Some c2)).
+    rewrite IH by (cbn [length] in Hf; lia). reflexivity.
+Qed.
+
+Lemma raw_pulls_fail tl : term_fail tl -> forall cs fuel, length cs < fuel ->
+  raw_pulls fuel (st (map MChunk cs ++ tl) None) = (pulls_fail cs, None).
+Proof.
+  intros Ht cs fuel Hf. destruct cs as [|c cs].
+  - destruct fuel; [lia|]. destruct Ht; reflexivity.
+  - destruct fuel as [|f]; [lia|]. cbn [map app]. cbn [raw_pulls]. rewrite next_first_chunk.
+    pose proof (raw_pulls_fail_look tl Ht cs c (S f)) as H. cbn [raw_pulls] in H. apply H. cbn [length] in Hf. lia.
+Qed.
+
+(** with less fuel (a consumer that stops early) the responses are a prefix *)
+Lemma raw_pulls_prefix_look tl full : (term_ok tl /\ full = pulls_ok) \/ (term_fail tl /\ full = pulls_fail) ->
+  forall cs c j, fst (raw_pulls j (st (map MChunk cs ++ tl) (Some c))) = firstn j (full (c :: cs)).
+Proof.
+  intros Ht cs; induction cs as [|c2 cs IH]; intros c j; (destruct j as [|j]; [reflexivity|]).
+  - destruct Ht as [[[rest] ->]|[Ht ->]]; [|destruct Ht]; cbn [pulls_ok pulls_fail firstn];
+      rewrite firstn_nil; reflexivity.
+  - cbn [raw_pulls map app]. unfold st at 1. cbn [next_handler s_done session_pull s_look s_rx pull_second recv].
+    fold (st (map MChunk cs ++ tl) (Some c2)).
+    specialize (IH c2 j). destruct (raw_pulls j (st (map MChunk cs ++ tl) (Some c2))) as [rs t'].
+    cbn [fst] in *. rewrite IH.
+    destruct Ht as [[_ ->]|[_ ->]]; reflexivity.
+Qed.
+
+Lemma raw_pulls_prefix tl full : (term_ok tl /\ full = pulls_ok) \/ (term_fail tl /\ full = pulls_fail) ->
+  forall cs j, fst (raw_pulls j (st (map MChunk cs ++ tl) None)) = firstn j (full cs).
+Proof.
+  intros Ht cs j. destruct cs as [|c cs].
+  - destruct j; [reflexivity|]. destruct Ht as [[[rest] ->]|[Ht ->]]; [|destruct Ht]; cbn [pulls_ok pulls_fail firstn];
+      rewrite firstn_nil; reflexivity.
+  - destruct j as [|j]; [reflexivity|]. cbn [map app]. cbn [raw_pulls]. rewrite next_first_chunk.
+    pose proof (raw_pulls_prefix_look tl full Ht cs c (S j)) as H. cbn [raw_pulls] in H. exact H.
+Qed.
+
+(** * reassembly *)
+Lemma chunk_reader_ok_look tl : term_ok tl -> forall cs c fuel, length cs < fuel ->
+  chunk_reader fuel (st (map MChunk cs ++ tl) (Some c)) = HBytes (concat (c :: cs)).
+Proof.
+  intros [rest] cs; induction cs as [|c2 cs IH]; intros c fuel Hf; (destruct fuel as [|f]; [cbn [length] in Hf; lia|]).
+  - cbn [concat]. rewrite app_nil_r. reflexivity.
+  - cbn [chunk_reader map app]. unfold st at 1. cbn [next_handler s_done session_pull s_look s_rx pull_second recv].
+    fold (st (map MChunk cs ++ MEnd :: rest) (Some c2)).
+    rewrite IH by (cbn [length] in Hf; lia). reflexivity.
+Qed.
+
+Lemma chunk_reader_ok tl : term_ok tl -> forall cs fuel, length cs < fuel ->
+  chunk_reader fuel (st (map MChunk cs ++ tl) None) = HBytes (concat cs).
+Proof.
+  intros Ht cs fuel Hf. destruct cs as [|c cs].
+  - destruct Ht as [rest]. destruct fuel; [lia|]. reflexivity.
+  - destruct fuel as [|f]; [lia|]. cbn [map app]. cbn [chunk_reader]. rewrite next_first_chunk.
+    pose proof (chunk_reader_ok_look tl Ht cs c (S f)) as H. cbn [chunk_reader] in H. apply H. cbn [length] in Hf. lia.
+Qed.
+
+Lemma chunk_reader_fail_look tl : term_fail tl -> forall cs c fuel,
+  chunk_reader fuel (st (map MChunk cs ++ tl) (Some c)) = HErr.
+Proof.
+  intros Ht cs; induction cs as [|c2 cs IH]; intros c fuel; (destruct fuel as [|f]; [reflexivity|]).
+  - destruct Ht; reflexivity.
+  - cbn [chunk_reader map app]. unfold st at 1. cbn [next_handler s_done session_pull s_look s_rx pull_second recv].
+    fold (st (map MChunk cs ++ tl) (Some c2)).
+    rewrite IH. reflexivity.
+Qed.
+
+Lemma chunk_reader_fail tl : term_fail tl -> forall cs fuel,
+  chunk_reader fuel (st (map MChunk cs ++ tl) None) = HErr.
+Proof.
+  intros Ht cs fuel. destruct cs as [|c cs].
+  - destruct fuel; [reflexivity|]. destruct Ht; reflexivity.
+  - destruct fuel as [|f]; [reflexivity|]. cbn [map app]. cbn [chunk_reader]. rewrite next_first_chunk.
+    pose proof (chunk_reader_fail_look tl Ht cs c (S f)) as H. cbn [chunk_reader] in H. exact H.
+Qed.
+
+(** * what the response lists look like *)
+Lemma bodies_pulls_ok cs : bodies (pulls_ok cs) = concat cs.
+Proof.
+  unfold bodies. induction cs as [|c cs IH]; [reflexivity|].
+  destruct cs as [|c2 cs]; [reflexivity|].
+  change (pulls_ok (c :: c2 :: cs)) with (RChunk c false :: pulls_ok (c2 :: cs)).
+  cbn [map concat resp_body]. cbn [concat] in IH. rewrite IH. reflexivity.
+Qed.
+
+Lemma one_last_final_pulls_ok cs : one_last_final (pulls_ok cs) = true.
+Proof.
+  induction cs as [|c cs IH]; [reflexivity|]. destruct cs as [|c2 cs]; [reflexivity|].
+  change (pulls_ok (c :: c2 :: cs)) with (RChunk c false :: pulls_ok (c2 :: cs)). exact IH.
+Qed.
+
+Lemma ends_in_error_pulls_fail cs : ends_in_error (pulls_fail cs) = true.
+Proof.
+  induction cs as [|c cs IH]; [reflexivity|]. destruct cs as [|c2 cs]; [reflexivity|].
+  change (pulls_fail (c :: c2 :: cs)) with (RChunk c false :: pulls_fail (c2 :: cs)). exact IH.
+Qed.
+
+(** what a failed stream delivered: all full chunks but the last one *)
+Lemma bodies_pulls_fail cs : bodies (pulls_fail cs) = concat (removelast cs).
+Proof.
+  unfold bodies. induction cs as [|c cs IH]; [reflexivity|].
+  destruct cs as [|c2 cs]; [reflexivity|].
+  change (pulls_fail (c :: c2 :: cs)) with (RChunk c false :: pulls_fail (c2 :: cs)).
+  change (removelast (c :: c2 :: cs)) with (c :: removelast (c2 :: cs)).
+  cbn [map concat resp_body]. rewrite IH. reflexivity.
+Qed.
+
+Lemma concat_removelast_prefix (cs : list chunk) : exists r, concat cs = concat (removelast cs) ++ r.
+Proof.
+  induction cs as [|c cs IH]; [exists []; reflexivity|].
+  destruct cs as [|c2 cs]; [exists c; cbn [concat removelast app]; now rewrite app_nil_r|].
+  destruct IH as [r IH]. exists r.
+  change (removelast (c :: c2 :: cs)) with (c :: removelast (c2 :: cs)).
+  cbn [concat] in *. rewrite IH, app_assoc. reflexivity.
+Qed.
+
+(** the readable form of [one_last_final] and [ends_in_error] *)
+Definition not_last (r : resp) : Prop := exists b, r = RChunk b false.
+
+Lemma one_last_final_iff rs : one_last_final rs = true <->
+  exists init b, rs = init ++ [RChunk b true] /\ Forall not_last init.
+Proof.
+  split.
+  - induction rs as [|r rs IH]; intros H; [discriminate|].
+    destruct r as [b [|]|ec]; cbn [one_last_final] in H; [|destruct (IH H) as (init & b' & -> & Hf)|discriminate].
+    + destruct rs; [|discriminate]. exists [], b. split; [reflexivity|constructor].
+    + exists (RChunk b false :: init), b'. split; [reflexivity|]. constructor; [now exists b|exact Hf].
+  - intros (init & b & -> & Hf). induction Hf as [|r init [b' ->] _ IH]; [reflexivity|exact IH].
+Qed.
+
+Lemma ends_in_error_iff rs : ends_in_error rs = true <->
+  exists init ec, rs = init ++ [RErr ec] /\ Forall not_last init.
+Proof.
+  split.
+  - induction rs as [|r rs IH]; intros H; [discriminate|].
+    destruct r as [b [|]|ec]; cbn [ends_in_error] in H; [discriminate|destruct (IH H) as (init & ec & -> & Hf)|].
+    + exists (RChunk b false :: init), ec. split; [reflexivity|]. constructor; [now exists b|exact Hf].
+    + destruct rs; [|discriminate]. exists [], ec. split; [reflexivity|constructor].
+  - intros (init & ec & -> & Hf). induction Hf as [|r init [b' ->] _ IH]; [reflexivity|exact IH].
+Qed.
+
+Lemma partial_ok_pulls_ok chk cs : forall j, partial_ok chk false (firstn j (pulls_ok cs)) (concat cs) = true.
+Proof.
+  induction cs as [|c cs IH]; intros j.
+  - destruct j as [|j]; [reflexivity|]. cbn [pulls_ok firstn partial_ok concat starts_with length is_nil negb].
+    rewrite firstn_nil. destruct chk; reflexivity.
+  - destruct j as [|j]; [reflexivity|]. destruct cs as [|c2 cs].
+    + cbn [pulls_ok firstn partial_ok concat is_nil negb]. rewrite firstn_nil, app_nil_r. cbn [is_nil].
+      rewrite <- (app_nil_r c) at 2. rewrite starts_with_app, Nat.eqb_refl. destruct chk; reflexivity.
+    + change (pulls_ok (c :: c2 :: cs)) with (RChunk c false :: pulls_ok (c2 :: cs)).
+      cbn [firstn partial_ok]. change (concat (c :: c2 :: cs)) with (c ++ concat (c2 :: cs)).
+      rewrite starts_with_app, skipn_app_exact, IH. destruct chk; reflexivity.
+Qed.
+
+Lemma partial_ok_pulls_fail chk cs : forall j extra,
+  partial_ok chk true (firstn j (pulls_fail cs)) (concat cs ++ extra) = true.
+Proof.
+  induction cs as [|c cs IH]; intros j extra.
+  - destruct j as [|j]; [reflexivity|]. cbn [pulls_fail firstn partial_ok]. rewrite firstn_nil. reflexivity.
+  - destruct j as [|j]; [reflexivity|]. destruct cs as [|c2 cs].
+    + cbn [pulls_fail firstn partial_ok]. rewrite firstn_nil. reflexivity.
+    + change (pulls_fail (c :: c2 :: cs)) with (RChunk c false :: pulls_fail (c2 :: cs)).
+      cbn [firstn partial_ok]. change (concat (c :: c2 :: cs)) with (c ++ concat (c2 :: cs)).
+      rewrite <- app_assoc, starts_with_app, skipn_app_exact, IH. destruct chk; reflexivity.
+Qed.
+
+(** * the whole exchange of a stream *)
+Lemma lenw_bound n ws : 0 < n -> length (chunks_of n (concat ws)) <= lenw ws.
+Proof.
+  intros Hn. unfold lenw.
+  assert (G : forall k l, length l <= k -> length (chunks_of n l) <= length l).
+  { induction k as [|k IH]; intros l Hl.
+    - destruct l; [cbn; lia|cbn [length] in Hl; lia].
+    - destruct l as [|x l]; [cbn; lia|]. rewrite chunks_of_step by exact Hn. cbn [length].
+      assert (Hs : length (skipn n (x :: l)) <= k) by (rewrite skipn_length; cbn [length] in *; lia).
+      specialize (IH _ Hs). rewrite skipn_length in *. cbn [length] in *. lia. }
+  exact (G _ _ (le_n _)).
+Qed.
+
+Lemma full_chunks_bound n ws : 0 < n -> length (fst (sink_writes n [] ws)) <= lenw ws.
+Proof.
+  intros Hn. pose proof (sink_writes_chunks n ws Hn) as [H _]. pose proof (lenw_bound n ws Hn) as B.
+  rewrite <- H, app_length in B. lia.
+Qed.
+
+Theorem raw_exchange_ok n ws fuel : 0 < n -> lenw ws < fuel ->
+  raw_pulls fuel (open_handler n ws false) = (pulls_ok (chunks_of n (concat ws)), None).
+Proof.
+  intros Hn Hf. unfold open_handler. rewrite produce_ok by exact Hn.
+  apply (raw_pulls_ok [MEnd] (term_end [])). pose proof (lenw_bound n ws Hn). lia.
+Qed.
+
+Theorem raw_exchange_fail n ws fuel : 0 < n -> lenw ws < fuel ->
+  raw_pulls fuel (open_handler n ws true) = (pulls_fail (fst (sink_writes n [] ws)), None).
+Proof.
+  intros Hn Hf. unfold open_handler. rewrite produce_fail.
+  apply (raw_pulls_fail [MFail] (term_f [])). pose proof (full_chunks_bound n ws Hn). lia.
+Qed.
+
+Theorem reader_ok n ws fuel : 0 < n -> lenw ws < fuel ->
+  chunk_reader fuel (open_handler n ws false) = HBytes (concat ws).
+Proof.
+  intros Hn Hf. unfold open_handler. rewrite produce_ok by exact Hn.
+  pose proof (lenw_bound n ws Hn) as B.
+  pose proof (chunk_reader_ok [MEnd] (term_end []) (chunks_of n (concat ws)) fuel ltac:(lia)) as R.
+  unfold st in R. rewrite R, (chunks_of_concat n Hn _ _ (le_n _)). reflexivity.
+Qed.
+
+Theorem reader_fail n ws fuel : chunk_reader fuel (open_handler n ws true) = HErr.
+Proof. unfold open_handler. rewrite produce_fail. apply (chunk_reader_fail [MFail] (term_f [])). Qed.
+
+(** * segmentation of the case *)
+Lemma segment_concat sizes : forall data, concat (segment sizes data) = data.
+Proof.
+  induction sizes as [|k sizes IH]; intros data; cbn [segment].
+  - destruct data; [reflexivity|]. cbn [concat]. now rewrite app_nil_r.
+  - cbn [concat]. rewrite IH. apply firstn_skipn.
+Qed.
+
+(** * the bounded channel: whatever the depth and the schedule, the consumer
+    receives the producer's messages in the order they were sent *)
+Record chan : Set := mkChan { ch_pending : list msg; ch_queue : list msg; ch_got : list msg }.
+
+Inductive chan_step (d : nat) : chan -> chan -> Prop :=
+| ch_send m p q g : length q < d -> chan_step d (mkChan (m :: p) q g) (mkChan p (q ++ [m]) g)
+| ch_recv m p q g : chan_step d (mkChan p (m :: q) g) (mkChan p q (g ++ [m]))
+| ch_rendezvous m p g : chan_step d (mkChan (m :: p) [] g) (mkChan p [] (g ++ [m])).
+
+Inductive chan_reach (d : nat) : chan -> chan -> Prop :=
+| reach_refl c : chan_reach d c c
+| reach_step c1 c2 c3 : chan_reach d c1 c2 -> chan_step d c2 c3 -> chan_reach d c1 c3.
+
+Lemma chan_fifo d msgs c : chan_reach d (mkChan msgs [] []) c ->
+  ch_got c ++ ch_queue c ++ ch_pending c = msgs.
+Proof.
+  intros H. remember (mkChan msgs [] []) as c0 eqn:E. induction H as [c|c1 c2 c3 H IH S].
+  - subst c. reflexivity.
+  - specialize (IH E). destruct S; cbn [ch_got ch_queue ch_pending] in *; rewrite <- IH;
+      repeat rewrite <- app_assoc; reflexivity.
+Qed.
+
+(** * the oracle accepts the model *)
+Local Open Scope N_scope.
+
+Lemma wf_n c : c09_wf c = true -> (0 < N.to_nat (c_n c))%nat.
+Proof. unfold c09_wf. intros H. lia. Qed.
+
+Lemma hl_is_refl b : hl_is (HBytes b) (Some b) = true.
+Proof. cbn [hl_is]. apply bytes_eqb_refl. Qed.
+
+Lemma model_with_ok c ws plain : (0 < N.to_nat (c_n c))%nat -> c_fail c = None ->
+  model_C09_with c ws plain =
+  let cs := chunks_of (N.to_nat (c_n c)) (concat ws) in
+  let vec := HBytes (if c_zstd c then plain else concat ws) in
+  mkO09 (pulls_ok cs) (RErr EC_INVALID_QUERY)
+        (firstn (N.to_nat (c_cancel_after c)) (pulls_ok cs)) (RErr EC_INVALID_QUERY)
+        (if c_zstd c then plain else []) vec (if c_kind c <? 3 then Some vec else None).
+Proof.
+  intros Hn Hf. unfold model_C09_with, c09_failed. rewrite Hf.
+  rewrite raw_exchange_ok by (try exact Hn; lia).
+  rewrite reader_ok by (try exact Hn; lia).
+  pose proof (raw_pulls_prefix [MEnd] pulls_ok (or_introl (conj (term_end []) eq_refl))
+                (chunks_of (N.to_nat (c_n c)) (concat ws)) (N.to_nat (c_cancel_after c))) as P.
+  unfold open_handler. rewrite produce_ok by exact Hn. unfold st in P.
+  destruct (raw_pulls (N.to_nat (c_cancel_after c)) _) as [cp t2]. cbn [fst] in P. subst cp.
+  reflexivity.
+Qed.
+
+Lemma model_with_fail c ws plain k : (0 < N.to_nat (c_n c))%nat -> c_fail c = Some k ->
+  model_C09_with c ws plain =
+  let cs := fst (sink_writes (N.to_nat (c_n c)) [] ws) in
+  mkO09 (pulls_fail cs) (RErr EC_INVALID_QUERY)
+        (firstn (N.to_nat (c_cancel_after c)) (pulls_fail cs)) (RErr EC_INVALID_QUERY)
+        (if c_zstd c then plain else []) HErr (if c_kind c <? 3 then Some HErr else None).
+Proof.
+  intros Hn Hf. unfold model_C09_with, c09_failed. rewrite Hf.
+  rewrite raw_exchange_fail by (try exact Hn; lia).
+  rewrite reader_fail.
+  pose proof (raw_pulls_prefix [MFail] pulls_fail (or_intror (conj (term_f []) eq_refl))
+                (fst (sink_writes (N.to_nat (c_n c)) [] ws)) (N.to_nat (c_cancel_after c))) as P.
+  unfold open_handler. rewrite produce_fail. unfold st in P.
+  destruct (raw_pulls (N.to_nat (c_cancel_after c)) _) as [cp t2]. cbn [fst] in P. subst cp.
+  reflexivity.
+Qed.
+
+Lemma pulls_ok_nil_only cs : cs = [] -> pulls_ok cs = [RChunk [] true].
+Proof. intros ->. reflexivity. Qed.
+
+Theorem ok_model_C09 c : c09_wf c = true -> ok_C09 c (model_C09 c) = true.
+Proof.
+  intros W. pose proof (wf_n c W) as Hn.
+  assert (Hz : c_zstd c = false) by (unfold c09_wf in W; destruct (c_zstd c); [lia|reflexivity]).
+  unfold model_C09.
+  assert (Hcat : concat (c09_writes c) = c09_written c) by apply segment_concat.
+  destruct (c_fail c) as [k|] eqn:Hf.
+  - rewrite (model_with_fail c _ _ k Hn Hf). cbn zeta. unfold ok_C09. rewrite Hf, Hz.
+    cbn [o_pulls o_after_end o_cancel_pulls o_after_cancel o_plain o_vec o_typed is_err negb andb hl_is].
+    rewrite ends_in_error_pulls_fail, bodies_pulls_fail.
+    pose proof (sink_full_chunks_prefix (N.to_nat (c_n c)) (c09_writes c) Hn) as Hp.
+    rewrite Hcat in Hp. unfold c09_written in Hp. rewrite Hf in Hp.
+    destruct (concat_removelast_prefix (fst (sink_writes (N.to_nat (c_n c)) [] (c09_writes c)))) as [r Hr].
+    rewrite Hp, partial_ok_pulls_fail, Hr, <- app_assoc, starts_with_app.
+    destruct (c_kind c <? 3); reflexivity.
+  - rewrite (model_with_ok c _ _ Hn Hf). cbn zeta. unfold ok_C09. rewrite Hf, Hz.
+    cbn [o_pulls o_after_end o_cancel_pulls o_after_cancel o_plain o_vec o_typed is_err negb andb].
+    rewrite Hcat. unfold c09_written. rewrite Hf.
+    rewrite bodies_pulls_ok, (chunks_of_concat _ Hn _ _ (le_n _)), bytes_eqb_refl, one_last_final_pulls_ok.
+    rewrite <- (chunks_of_concat _ Hn _ (c_data c) (le_n _)) at 4.
+    rewrite partial_ok_pulls_ok, hl_is_refl.
+    assert (He : (if is_nil (c_data c) && true
+                  then match pulls_ok (chunks_of (N.to_nat (c_n c)) (c_data c)) with
+                       | [RChunk [] true] => true | _ => false end else true) = true).
+    { destruct (c_data c); [reflexivity|reflexivity]. }
+    rewrite He. destruct (c_kind c <? 3); [rewrite hl_is_refl|]; reflexivity.
+Qed.
